@@ -1,6 +1,6 @@
 """C06 — every reply respects what the client sent and negotiated."""
 
-_H = {"server": ["zz_verif_srv_*.go", "zz_verif_c05_test.go", "zz_verif_c06_test.go"], "middleware": ["zz_verif_export.go"]}
+_H = {"server": ["zz_verif_srv_*.go", "zz_verif_c05_test.go", "zz_verif_c06_test.go", "zz_verif_c06_doq_test.go"], "middleware": ["zz_verif_export.go"]}
 
 CHECK = {
     "level": "exploration",
@@ -9,9 +9,11 @@ CHECK = {
     "level_text": "For every configuration, every cached/uncached target (A hit, cached CNAME chain, alias with uncached target, signed answer, NXDOMAIN with proof, descendant of a denied name, NODATA, EDE-bearing, >1232 B, ~512 B, cached SERVFAIL, REFUSED, miss, hosts-file name, empty zone, root) and every packet shape of the alphabet (each header flag, opcodes, section counts 0-3, name forms incl. pointer/truncated/upper-case, qtypes/classes incl. unknown, OPT shapes: sizes 0-65535, version 1, ext-rcode, non-root owner, second OPT, bad rdlen, trailing bytes, 15 option kinds and mixes) on UDP and TCP, the packet is served by the real Server through the real udpJob/tcpJob strict path, the reader-inline path with worker replay, the decoded entry and ServeMsg; the replies must decode to the same message (header bits, rcode, question, sorted sections with TTLs, EDNS version/size/DO/option multiset), agree on drop vs reply, and agree on whether resolution was reached.",
     "level_note": "Trusted: miekg Unpack as the decoder of both replies; the harness' re-implementation of the engines' 12-line header accept step (the real acceptHeader/rejectInPlace are called); real sockets, readers and batching are out of scope here (C10/C11). Limiter-token side effects are compared only through replies (rate-limit configs in thorough).",
     "rule": "cases = config x target x transport x packet; 'nontrivial' = distinct cases that produced a reply on the reference path",
-    "assumptions": ["DNS over HTTPS is entered through the real Server.ServeHTTP (RFC 8484 POST and GET, httptest) for every stream-transport case; the JSON API and DNS over QUIC (needs a QUIC connection; its writer's WriteMsg zeroes the ID, inspected only) are not explored; for DoH the 'responses are never answered / NOTIMP / FORMERR' clause is not applied because the statement names the datagram and stream listeners", "the scripted upstream answers unscripted names with TC=1 so that serving a packet does not change cache state between the paths"],
+    "assumptions": ["DNS over HTTPS is entered through the real Server.ServeHTTP (RFC 8484 POST and GET, httptest) for every stream-transport case; DNS over QUIC runs through the real doq.Server and a real QUIC client on loopback (unit doq; decodable packets only, since DoQ ends the connection on anything else; reply ID must be 0); the DoH JSON API is not explored; for DoH the 'responses are never answered / NOTIMP / FORMERR' clause is not applied because the statement names the datagram and stream listeners", "the scripted upstream answers unscripted names with TC=1 so that serving a packet does not change cache state between the paths"],
     "bounds": {"quick": "3 configs x 16 targets x 2 transports x ~150 packets x 4-5 paths (decoded, strict, ServeMsg, inline+replay on UDP, DoH POST+GET on the stream cases)", "thorough": "5 configs, + all option pairs and all 128 flag combinations"},
     "units": {
         "sweep": {"pkg": "server", "run": "TestVerifC06", "harness": _H, "stub_tests": ["server"], "budget_s": {"quick": 80, "thorough": 700}},
+        # the same alphabet through a real DNS-over-QUIC server and client on loopback (reply ID must be 0)
+        "doq": {"pkg": "server", "run": "TestVerifC06DoQ", "harness": _H, "stub_tests": ["server"], "shards": 8, "budget_s": {"quick": 60, "thorough": 300}},
     },
 }
